@@ -105,7 +105,54 @@ def config_stream(res, names, cases, digits_choices=(0, 1, 2, 3)):
                                      'impl_output': {'table': got[:8], 'histogram_of_own_cycles': want[:8]}})
 
 
-def micro_stream(res, names, rng, k):
+def exact_table(cs):
+    """histogram of a cycle list on the integer grid"""
+    t = {}
+    for a, b, u in cs:
+        t[abs(b - a)] = t.get(abs(b - a), 0) + u
+    return sorted(t.items())
+
+
+def caller_array_stream(res, names, rng, k):
+    """one float64 array handed to several counters in turn stays the caller's: every call returns what it returns for a fresh list of
+    the same values, and the array is unchanged afterwards (a counter that shifts or rotates its input in place corrupts the next call)"""
+    core.import_impl()
+    import numpy as np
+    from ffpack import lcc
+    for _ in range(k):
+        h, s = core.gen_history(rng, maxlen=16, closed=(rng.random() < 0.6))
+        if max(abs(v) for v in h) >= 4096 or len(set(h)) < 2:
+            continue
+        if h[0] == h[-1] and h[0] == max(h) and len(h) > 3 and rng.random() < 0.7:
+            # a closed period cut somewhere else than at its maximum
+            cut = rng.randrange(1, len(h) - 1)
+            h = h[cut:-1] + h[:cut] + [h[cut]]
+        vals = floats(h, 1)
+        arr = np.array(vals, dtype=float)
+        order = [nm for nm in names if valid_for(nm, h)]
+        rng.shuffle(order)
+        for name in order + order[:1]:
+            f = getattr(lcc, API[name])
+            res.evaluations += 1
+            res.stat('caller_array_shared_between_counters')
+            case = {'history': vals, 'sequence_of_calls': order, 'call': name}
+            try:
+                got = f(arr)
+                want = f(list(vals))
+            except Exception as e:  # noqa
+                res.failures.append({'signature': f'{res.pid}:{name}:caller-array:raises:{enc_list(h)}',
+                                     'clause': 'valid history raised when the same float64 array is handed to several counters in turn: ' + repr(e)[:100],
+                                     'api': API[name], 'input': case})
+                arr = np.array(vals, dtype=float)
+                continue
+            if repr(got) != repr(want) or arr.tolist() != vals:
+                res.failures.append({'signature': f'{res.pid}:{name}:caller-array-modified:{enc_list(h)}',
+                                     'clause': "the caller's history array was modified / a count on the shared array differs from the count of a fresh copy",
+                                     'api': API[name], 'input': case, 'impl_output': {'array_after': arr.tolist(), 'shared': repr(got)[:200], 'fresh': repr(want)[:200]}})
+                arr = np.array(vals, dtype=float)
+
+
+def micro_stream(res, names, rng, k, pred=None):
     """micro ties: the shape of a tie-rich history of small integers with every point moved by 0, 1, 2 or 3 units of 2^-40 (all
     values and differences still exact in binary64).  Ranges that tie in the integer shape now differ by ~1e-12, far below the
     8 decimals to which aggregated ranges are rounded: a comparison carried out on rounded ranges, or with a tolerance derived from
@@ -152,8 +199,19 @@ def micro_stream(res, names, rng, k):
                                      'clause': 'aggregated table is not the histogram of the cycle list at 8 digits (values k * 2^-40)',
                                      'api': API[name], 'input': h, 'scale': S, 'impl_output': {'table': got[:8], 'histogram_of_own_cycles': want[:8]}})
             reqs.append(model_line(name, h))
-            meta.append((name, h, cs))
-    for (name, h, cs), ans in zip(meta, core.driver_batch(reqs)):
+            meta.append(('corr', name, h, cs))
+            if pred is not None:
+                # the property predicates on the implementation's own cycle list (with its exact histogram as the table)
+                line = pred(name, h, {'seq': cs, 'table': exact_table(cs)})
+                if line:
+                    reqs.append(line)
+                    meta.append(('pred', name, h, cs))
+    for (kind, name, h, cs), ans in zip(meta, core.driver_batch(reqs)):
+        if kind == 'pred':
+            if ans != 'ok':
+                res.failures.append({'signature': f'{res.pid}:{name}:micro-tie:{ans}:{enc_list(h)}', 'clause': ans + ' (values k * 2^-40)',
+                                     'api': API[name], 'input': h, 'scale': S, 'impl_output': enc_cycs(cs)})
+            continue
         res.traces += 1
         if enc_cycs(cs) != ans.split(' ')[0]:
             res.disagreements.append({'what': f'{API[name]} vs model (cycle list, micro ties on the 2^-40 grid)', 'input': h, 'scale': S,
